@@ -35,6 +35,8 @@ inductive HAct where
   | firePc
   /-- `<-c.Request.Context().Done()` -/
   | awaitCtx
+  /-- wait until the middleware is logging the timeout (thread R is past its `select`, before `tw.timeout()`) -/
+  | awaitL
   /-- wait until the timeout handler has been entered (thread R is past its `select`) -/
   | awaitE
   /-- wait until the timeout handler has written its response -/
@@ -78,6 +80,8 @@ inductive Ctx where
 inductive RPc where
   /-- at `select { case <-done: … case <-ctx.Done(): … }` -/
   | select
+  /-- on the `ctx.Done()` arm with `DeadlineExceeded`: `cfg.logger.Warn("request timeout", …)`, before `tw.timeout()` -/
+  | logging
   /-- inside `cfg.handler(c, cfg.duration)` -/
   | thandler
   /-- at `<-done` after a timeout -/
@@ -111,6 +115,8 @@ structure St where
   timedOut : Bool := false
   /-- `tw.started`: the handler chain has started the response -/
   started : Bool := false
+  /-- the timeout is being logged (what `awaitL` waits for) -/
+  tLogging : Bool := false
   /-- the timeout handler has been entered (what `awaitE` waits for) -/
   tEntered : Bool := false
   /-- the timeout handler has written (what `awaitT` waits for) -/
@@ -148,6 +154,7 @@ def stepH (s : St) : St :=
   | .fireDl :: r => { s with hprog := r, ctx := if s.ctx = .live then .deadline else s.ctx }
   | .firePc :: r => { s with hprog := r, ctx := if s.ctx = .live then .cancelled else s.ctx }
   | .awaitCtx :: r => if s.ctx = .live then s else { s with hprog := r }
+  | .awaitL :: r => if s.tLogging then { s with hprog := r } else s
   | .awaitE :: r => if s.tEntered then { s with hprog := r } else s
   | .awaitT :: r => if s.tWritten then { s with hprog := r } else s
   | .signalH :: r => { s with hprog := r, hGo := true }
@@ -156,45 +163,56 @@ def stepH (s : St) : St :=
   | .panic v :: _ => { s with hprog := [], panicChan := some v, hDone := true, hGo := true }
   | .guard n :: r => { s with hprog := if s.ctx = .live then r else r.drop n }
 
-/-- `waitH`: the configured timeout handler waits for the handler's signal before it writes
-    (`timeout.WithHandler`); `preferDone`: which ready `select` case Go picks -/
-def stepR (waitH : Bool) (preferDone : Bool) (s : St) : St :=
+/-- what the configured hooks do: `waitH` — the timeout handler (`timeout.WithHandler`) waits for the handler's
+    signal before it writes; `waitL` — the logger (`timeout.WithLogger`) does, inside its `Warn` call -/
+structure Hooks where
+  waitH : Bool := false
+  waitL : Bool := false
+  deriving Repr, DecidableEq, Inhabited
+
+instance : Coe Bool Hooks := ⟨fun b => { waitH := b }⟩
+
+/-- `preferDone`: which ready `select` case Go picks -/
+def stepR (waitH : Hooks) (preferDone : Bool) (s : St) : St :=
   match s.rpc with
   | .select =>
     -- `done` is ready and Go picks it (always when `ctx.Done()` is not ready)
     if s.hDone && (preferDone || s.ctx == .live) then finishR s
     -- nothing is ready: blocked
     else if s.ctx = .live then s
-    -- `ctx.Done()`: errors.Is(ctx.Err(), context.DeadlineExceeded)? then `timedOut = tw.timeout()`
-    else if s.ctx = .deadline then
-      if s.started then { s with rpc := .waitDone }
-      else { s with timedOut := true, tEntered := true, rpc := .thandler }
+    -- `ctx.Done()`: errors.Is(ctx.Err(), context.DeadlineExceeded)? then the timeout is logged
+    else if s.ctx = .deadline then { s with tLogging := true, rpc := .logging }
     -- the parent context was cancelled: nothing to send, `<-done`
     else { s with rpc := .waitDone }
+  | .logging =>
+    if waitH.waitL && !s.hGo then s
+    -- `timedOut = tw.timeout()`: the claim succeeds iff the chain has not started the response
+    else if s.started then { s with rpc := .waitDone }
+    else { s with timedOut := true, tEntered := true, rpc := .thandler }
   | .thandler =>
-    if waitH && !s.hGo then s
+    if waitH.waitH && !s.hGo then s
     else ({ s with tWritten := true, rpc := .waitDone }).write .t408
   | .waitDone => if s.hDone then finishR s else s
   | .returned => s
 
-def step (waitH : Bool) (s : St) : Tok → St
+def step (waitH : Hooks) (s : St) : Tok → St
   | .h => stepH s
   | .rd => stepR waitH true s
   | .rc => stepR waitH false s
   | .dl => { s with ctx := if s.ctx = .live then .deadline else s.ctx }
   | .pc => { s with ctx := if s.ctx = .live then .cancelled else s.ctx }
 
-def run (waitH : Bool) (sched : List Tok) (s : St) : St := sched.foldl (step waitH) s
+def run (waitH : Hooks) (sched : List Tok) (s : St) : St := sched.foldl (step waitH) s
 
 def init (prog : List HAct) : St := { hprog := prog }
 
 /-- nothing more can happen without an environment event -/
-def St.quiescent (waitH : Bool) (s : St) : Bool :=
+def St.quiescent (waitH : Hooks) (s : St) : Bool :=
   stepH s == s && stepR waitH true s == s && stepR waitH false s == s
 
 /-- The scheduler the driver uses for harness cases (whose order is forced by channels, so every
     fair schedule gives the same result): `first` moves as long as it can, then the other thread. -/
-def fair (waitH : Bool) (hFirst : Bool) : Nat → St → St
+def fair (waitH : Hooks) (hFirst : Bool) : Nat → St → St
   | 0, s => s
   | n+1, s =>
     let a := if hFirst then stepH s else stepR waitH true s
@@ -205,7 +223,7 @@ def fair (waitH : Bool) (hFirst : Bool) : Nat → St → St
 
 /-- `fair` for cases that run under a real (small) budget: when neither thread can move and the
     context is still live, time passes until the middleware's own timer fires (`dl`) -/
-def fairT (waitH : Bool) (hFirst : Bool) : Nat → St → St
+def fairT (waitH : Hooks) (hFirst : Bool) : Nat → St → St
   | 0, s => s
   | n+1, s =>
     let a := if hFirst then stepH s else stepR waitH true s
